@@ -120,8 +120,8 @@ func (p *legacyPeer) recv() ([]byte, bool) {
 		for len(p.inbox) > 0 {
 			pk := p.inbox[0]
 			p.inbox = p.inbox[1:]
-			if pk.Type == 2 || pk.Type == 4 {
-				continue
+			if pk.Type == 2 || pk.Type == 4 || pk.Type == 7 {
+				continue // IGNORE, DEBUG, EXT_INFO
 			}
 			return pk.Payload, true
 		}
@@ -303,10 +303,26 @@ func runLegacy(c *core.Ctx, s *Scenario) {
 		kexList = "ecdh-sha2-nistp256,curve25519-sha256" // the Go side only does curve25519-sha256: a wrong guess
 	}
 	if s.PeerStrict {
+		marker, ext := "kex-strict-c-v00@openssh.com", "ext-info-c"
 		if peerIsServer {
-			kexList += ",kex-strict-s-v00@openssh.com"
-		} else {
-			kexList += ",kex-strict-c-v00@openssh.com"
+			marker, ext = "kex-strict-s-v00@openssh.com", "ext-info-s"
+		}
+		// the marker may stand anywhere in the list (it is no algorithm); a
+		// right guess presupposes that the first entries of the two lists
+		// agree (RFC 4253 section 7), so there it follows the algorithms
+		pos := s.MarkerPos
+		if s.Follows == 2 && (pos == 1 || pos == 3) {
+			pos = 2
+		}
+		switch pos {
+		case 1:
+			kexList = marker + "," + kexList
+		case 2:
+			kexList += "," + marker + "," + ext
+		case 3:
+			kexList = ext + "," + marker + "," + kexList
+		default:
+			kexList += "," + marker
 		}
 	}
 	myKI := kexInitPayload(kexList, s.Follows != 0)
